@@ -1022,6 +1022,14 @@ class Interp(object):
         self.set_assume(p2, t, False)
         self.emit(path, "branch", node, (t, True))
         self.emit(p2, "branch", node, (t, False))
+        if isinstance(v, tuple) and v[0] in ("not", "cmp"):
+            # a local that holds this boolean (`first = not self.flag; if first: self.flag = True; return first`)
+            # keeps the value it was tested with, whatever happens to the heap afterwards
+            for pp, val in ((path, not neg), (p2, neg)):
+                for fr in pp.frames:
+                    for name, cur in list(fr.env.items()):
+                        if cur == v:
+                            fr.env[name] = ("const", val)
         return [(not neg, path), (neg, p2)]
 
     def set_assume(self, path, t, val):
@@ -1060,6 +1068,10 @@ class Interp(object):
                 return v[1] == "is"
             for x, y in ((a, b), (b, a)):
                 if y == NONE and isinstance(x, tuple) and x[0] in ("new", "extnew", "closure", "func", "class", "tuple", "list", "partial"):
+                    return v[1] != "is"
+                # a private sentinel (NAME = object()) is identical only to itself: what user code or the
+                # standard library returns is never it
+                if isinstance(x, tuple) and x[0] == "call" and self.is_sentinel(y) and (self.is_user(x[1], path) or (isinstance(x[1], tuple) and x[1][0] in ("ext", "name")) or self._foreign_call(x[1], path)):
                     return v[1] != "is"
                 if y == NONE and isinstance(x, tuple) and x[0] == "const" and x[1] is not None:
                     return v[1] != "is"
@@ -1573,6 +1585,21 @@ class Interp(object):
                     continue
                 out.extend(self.apply(fv, args, kwargs, q, node))
         return out
+
+    def _foreign_call(self, fv, path):
+        """the callee is not a function of the package (a method of an object the library was handed, ...)"""
+        try:
+            callee, _s, _c, _a = self.resolve_callee(fv, path, None)
+        except Exception:
+            return False
+        return callee is None
+
+    def is_sentinel(self, t):
+        if not (isinstance(t, tuple) and len(t) == 3 and t[0] == "global"):
+            return False
+        mod = self.prog.modules.get(t[1])
+        defs = mod.assigns.get(t[2], []) if mod is not None else []
+        return len(defs) == 1 and isinstance(defs[0], ast.Call) and isinstance(defs[0].func, ast.Name) and defs[0].func.id == "object" and not defs[0].args
 
     def is_user(self, fv, path):
         """is this callee user-supplied code?"""
